@@ -251,6 +251,19 @@ def impl_step(ds, line: str, holder: dict) -> str:
             "batch_uv": [flist(r) for r in ds.unnormalize_vect(np.vstack([u, u]), no_check=True)],
         }
         return f"nv={flist(nv)} uv={flist(uv)} ng={flist(ng)} ug={flist(ug)} rv={flist(rv)}"
+    if op == "sub":
+        ns = toks[1].split(",")
+        try:
+            cur = flist(ds.get_current_value(ns))
+        except KeyError:
+            cur = "_"
+        d = {n: np.arange(r.start, r.stop, dtype=float) for n, r in ds.names_to_indices.items()}
+        holder["sub_d2a"] = flist(ds.convert_dict_to_array(d, variable_names=ns))
+        return (
+            f"lb={flist(ds.get_lower_bounds(ns))} ub={flist(ds.get_upper_bounds(ns))} cur={cur} "
+            f"idxds={','.join(str(int(i)) for i in ds.get_variables_indexes(ns)) or '[]'} "
+            f"idxreq={','.join(str(int(i)) for i in ds.get_variables_indexes(ns, use_design_space_order=False)) or '[]'}"
+        )
     if op == "member":
         x = np.array([float(Fraction(t)) for t in toks[1].split(",")])
         try:
@@ -509,6 +522,21 @@ def oracle_query(sh: Shadow, line: str, answer: str) -> list[tuple[str, str]]:
         want = [min(max(xi, l) if l is not None else xi, u) if u is not None else (max(xi, l) if l is not None else xi) for xi, l, u in zip(x, lb, ub)]
         if p != want:
             return [("projection", f"project_into_bounds({toks[1]}) = {answer}, expected {rats(want)}")]
+    elif op == "sub":
+        ns = toks[1].split(",")
+        starts, off = {}, 0
+        for v in sh.vars:
+            starts[v.name] = off
+            off += v.size
+        lbw = olist([c for n in ns for c in sh.get(n).lb])
+        ubw = olist([c for n in ns for c in sh.get(n).ub])
+        curw = rats([c for n in ns for c in sh.get(n).value]) if all(sh.get(n).value is not None for n in ns) else "_"
+        idxreq = [starts[n] + k for n in ns for k in range(sh.get(n).size)]
+        idxds = [starts[v.name] + k for v in sh.vars if v.name in ns for k in range(v.size)]
+        want = (f"lb={lbw} ub={ubw} cur={curw} idxds={','.join(map(str, idxds)) or '[]'} "
+                f"idxreq={','.join(map(str, idxreq)) or '[]'}")
+        if not same_answer(answer, want):
+            return [("subset-views", f"views for the requested variables {ns}: got {answer}, expected {want}")]
     elif op == "a2d":
         x = parse_rlist(toks[1])
         off = 0
@@ -685,6 +713,9 @@ def valid_line(sh: Shadow, line: str) -> bool:
             return bool(names) and all(len(parse_rlist(t)) == sh.dim() for t in toks[1:4])
         if op in ("member", "project", "a2d"):
             return bool(names) and len(parse_rlist(toks[1])) == sh.dim()
+        if op == "sub":
+            ns = toks[1].split(",")
+            return bool(ns) and all(n in names for n in ns) and len(set(ns)) == len(ns)
         if op == "d2a":
             d = dict(kv.split("=") for kv in toks[1:])
             return bool(names) and set(d) == set(names) and all(len(parse_rlist(v)) == sh.get(k).size for k, v in d.items())
@@ -847,6 +878,10 @@ def gen_history(rng: common.Rng, n_ops: int) -> list[str]:
         if sh.vars:
             if rng.chance(0.6):
                 lines.append(probe_line(rng, sh))
+            if rng.chance(0.4):
+                ns = rng.subset(sh.names(), 0.7) or [rng.pick(sh.names())]
+                rng.shuffle(ns)
+                lines.append("sub " + ",".join(ns))
             if rng.chance(0.35):
                 lines.append(vec_line(rng, sh, "member"))
             if rng.chance(0.3):
@@ -900,7 +935,7 @@ def run_history(lines: list[str], scalar_style: bool = False, use_oracle: bool =
             ans = "X:" + common.exc_class(e)
             holder["last_exc"] = common.short_tb(e)
         answers.append(ans)
-        mutating = op not in ("view", "toscalar", "probe", "member", "project", "a2d", "d2a")
+        mutating = op not in ("view", "toscalar", "probe", "member", "project", "a2d", "d2a", "sub")
         if not use_oracle:
             if ans.startswith(("E", "X:")):
                 break
